@@ -23,7 +23,7 @@ GEN = ['PlaneType']
 OPS = ['C08']
 RULE = ('programs of 1..12 (quick) / 1..40 (thorough) operations drawn from {multiply by an instance of each of the 9 public plane '
         'classes (scalar or array-valued), multiply by Plane(ptype=t) for each of the 5 ptypes, propagate_dft, propagate_fft} '
-        'with operands as built / through pickle / through copy.deepcopy / with a directly constructed PType, from each of the 3 start types, each built three ways (one array field; no field: Wavefront.empty; no field left after two planes with non-overlapping apertures); distinct = (start, op sequence); non-trivial = the program contains at least one '
+        'with operands as built / through pickle / through copy.deepcopy / with a directly constructed PType, from each of the 3 start types, each built three ways (one array field; no field: Wavefront.empty; no field left after two planes with non-overlapping apertures; plus dedicated cases from a bare Wavefront(λ) with a 0-d field and from a two-segment aperture with two fields); distinct = (start, op sequence); non-trivial = the program contains at least one '
         'accepted and one refused step or a propagation')
 TRUSTED = ['table generators of tools/specs/c08.py: evaluation of the closed Python fragment of _can_mul_ptype/_mul_result_ptype/'
            '_propagate_ptype/constructors on every input of their finite domain; RST grid/simple table parsing']
@@ -32,7 +32,8 @@ UNPROVEN = ['"a refused operation leaves both operands unchanged": the structura
             'effect lists); that nothing else (aliasing through helper calls, C code) touches the operands is observed by by-value snapshots on '
             'every refused and accepted step of the correspondence only',
             'applicability of lentil.Rotate / lentil.Flip (open known finding KF-C08-rotate-flip)']
-ASSUMPTIONS = ['propagate_fft on a wavefront carrying fitted tilt raises NotImplementedError whatever its type (the tilt check precedes the type check: generated as Gen.codePropagateFft, theorem fft_typing); with no data at all the harness uses propagate_dft (propagate_fft needs a field to pad)',
+ASSUMPTIONS = ['a custom multiply (one that never delegates to Plane.multiply) is modelled by a structural rule read off its source: names that do not exist -> AttributeError; otherwise, if every return hands back the argument, a copy of it, or a Wavefront built with (p|plane)type=<argument>.(p|plane)type, the type is kept without consulting the table (Gen.classCustomKeepsType); else the model refuses with OtherError and the correspondence decides',
+               'propagate_fft on a wavefront carrying fitted tilt raises NotImplementedError whatever its type (the tilt check precedes the type check: generated as Gen.codePropagateFft, theorem fft_typing); with no data at all the harness uses propagate_dft (propagate_fft needs a field to pad)',
                'programs continue after a refusal with the operands as they were (as a Python session that catches the exception)']
 
 def _public_classes():
@@ -49,6 +50,9 @@ WTYPES = ['none', 'pupil', 'image']
 # how the start wavefront is built: one array field / no field at all (Wavefront.empty) / no field left after two planes
 # with non-overlapping apertures
 MODES = ['field', 'empty', 'disjoint']
+# further starts, used in dedicated cases: a bare Wavefront(λ) (one 0-d field; multiplications only — a 0-d field cannot be
+# propagated) and a two-segment aperture (two fields)
+EXTRA_MODES = ['bare', 'multi']
 
 def generate(rng, tier):
     n, lmax = {'quick': (300, 12), 'thorough': (5000, 40), 'search': (1500, 16)}[tier]
@@ -78,6 +82,11 @@ def generate(rng, tier):
             if o['k'] != 'prop': o['via'] = ['plain', 'plain', 'pickle', 'deepcopy', 'direct'][int(rng.integers(0, 5))]
             o['wvia'] = ['plain', 'plain', 'plain', 'pickle', 'deepcopy'][int(rng.integers(0, 5))]
         out.append({'start': WTYPES[i % 3], 'mode': MODES[(i // 3) % 4 % 3], 'ops': ops})
+    for s in WTYPES:
+        for c in CLASSES:
+            out.append({'start': s, 'mode': 'bare', 'ops': [{'k': 'cls', 'cls': c, 'arr': False, 'par': 1, 'via': 'plain', 'wvia': 'plain'}, {'k': 'cls', 'cls': 'Tilt', 'arr': False, 'par': 2, 'via': 'plain', 'wvia': 'plain'}]})
+            out.append({'start': s, 'mode': 'multi', 'ops': [{'k': 'cls', 'cls': c, 'arr': False, 'par': 1, 'via': 'plain', 'wvia': 'plain'}, {'k': 'prop', 'fft': False, 'par': 0, 'wvia': 'plain'},
+                                                             {'k': 'cls', 'cls': 'Image', 'arr': False, 'par': 0, 'via': 'plain', 'wvia': 'plain'}]})
     # a caller-supplied plane type through each constructor of the Tilt family (TiltInterface pops `ptype` from kwargs)
     for s in WTYPES:
         for p in PTYPES:
@@ -170,10 +179,17 @@ def impl(case):
             B = np.zeros((8, 8)); B[5:8, 5:8] = 1
             w = lentil.Plane(amplitude=B, pixelscale=1e-3).multiply(lentil.Plane(amplitude=A, pixelscale=1e-3).multiply(lentil.Wavefront(5e-7, focal_length=2.0)))
             w.ptype = case['start']
+        elif mode == 'bare':
+            w = lentil.Wavefront(5e-7, pixelscale=1e-3, focal_length=2.0, ptype=case['start'])
+        elif mode == 'multi':
+            seg = np.zeros((2, 8, 8)); seg[0, 1:4, 1:4] = 1; seg[1, 4:7, 4:7] = 1
+            w = lentil.Plane(amplitude=np.ones((8, 8)), mask=seg, pixelscale=1e-3).multiply(lentil.Wavefront(5e-7, focal_length=2.0))
+            w.ptype = case['start']
+            if len(w.data) != 2: return {'exc': 'start-not-two-fields'}
         else:
             w = lentil.Plane(amplitude=np.ones((4, 4)), pixelscale=1e-3).multiply(lentil.Wavefront(5e-7, focal_length=2.0))
             w.ptype = case['start']
-        if mode != 'field' and len(w.data) != 0: return {'exc': 'start-not-empty'}
+        if mode in ('empty', 'disjoint') and len(w.data) != 0: return {'exc': 'start-not-empty'}
         if str(w.ptype) != case['start']: return {'exc': 'start'}
         trace, mutated, ptypes, tilts, changed_ok = [], [], [], [], []
         for i, o in enumerate(case['ops']):
